@@ -143,6 +143,8 @@ def run(tier, replay=None):
     cov["impl_direct_failures"] = len(impl_fail)
     cov["samples"] = [s for k in ("ES", "LOOP", "GBH", "FIT") for s in samples.get(k, [])][:8]
     cov["exhaustive"] = True
+    # not a C11 violation but visible in the reported statistics: see notes/C11.md (defect candidate in tensor_t::variance)
+    cov["observations"] = [l[:500] for l in _grep(outf, ("NOTE ",), limit=3)]
     cov["unproved_clauses_searched"] = [
         "stored per-trial/per-fold and final error/loss statistics (mean, stdev, count, 9 percentiles) equal those recomputed by "
         "predicting with the stored fold/final model on the fold's train/validation samples (implementation-side, 1e-9 relative)",
@@ -157,7 +159,12 @@ def run(tier, replay=None):
     r.assumptions = ["binary64 arithmetic of the scalar code in early_stopping.cpp / gboost/util.cpp is IEEE-754 round-to-nearest (x86-64 SSE2, no fast-math)",
                      "k-fold / random splitters are deterministic in their seed (used to recover the folds' samples)",
                      "the fitting pipeline (solvers, weak-learner fitting) is an oracle; recomputed statistics are compared within 1e-9 relative",
-                     "0/1 classification errors are compared only when no output is within 1e-6 of a decision boundary"]
+                     "0/1 classification errors are compared only when no output is within 1e-6 of a decision boundary",
+                     "the stdev statistic of a (nearly) constant error/loss vector is rounding noise or NaN (one-pass variance in tensor.h): "
+                     "not compared there, occurrences counted in harness_counters.nan_stdev_near_constant",
+                     "diverged fold/final models (a contribution beyond 1e6 for unit-scale targets, or cancellation by more than 4 orders of "
+                     "magnitude) are excluded from the floating-point recomputation (counted in harness_counters.illconditioned_models_skipped); "
+                     "the exact checks (stored history vs monitor, learners kept) still apply to them"]
     rcode = r.finish("proof")
     if not r.violations:
         shutil.rmtree(wdir, ignore_errors=True)
